@@ -81,9 +81,11 @@ def py_model(ex, chem, c2, nmax, obst, onmax, near_only=None):
                     for pa in ex.pos[c]:
                         for n in obox:
                             xa = tuple(D * n[k] + pa[k] - pi[k] for k in range(3))
+                            qa = ex.qf(xa)
+                            if (qa - d2) * m2.denominator > m2.numerator: continue              # |xa|^2 <= |dx|^2 + mind2 is necessary
+                            if near_only is not None and qa >= near_only: continue               # (statistic only)
                             t = ex.bil(xa, dx)
-                            if near_only is not None and ex.qf(xa) >= near_only: continue      # (statistic only)
-                            if 0 <= t <= d2 and (ex.qf(xa) * d2 - t * t) * m2.denominator <= m2.numerator * d2:
+                            if 0 <= t <= d2 and (qa * d2 - t * t) * m2.denominator <= m2.numerator * d2:
                                 blocked = True; break
                         if blocked: break
                     if blocked: break
@@ -112,8 +114,10 @@ def boundary_margin(ex, chem, r2, obst, onmax, nmax):
                     for pa in ex.pos[c]:
                         for n in obox:
                             xa = tuple(D * n[k] + pa[k] - pi[k] for k in range(3))
+                            qa = ex.qf(xa)
+                            if qa > d2 + 1.01 * float(m2) + 1e-4 * scale + 1: continue      # too far to be within reach of the segment
                             t = ex.bil(xa, dx)
-                            dd = Fraction(ex.qf(xa) * d2 - t * t, d2)
+                            dd = Fraction(qa * d2 - t * t, d2)
                             near_seg = -1e-6 * scale <= t <= d2 + 1e-6 * scale
                             band = 1e-6 + 3e-5 * float(m2) / scale          # np.isclose(d2, mind2): atol 1e-8, rtol 1e-5
                             if near_seg and dd != m2 and abs(float(dd - m2)) / scale < band: return 0.0
@@ -252,6 +256,11 @@ def one_case(ck, rng, label, crys, chem, ex, cutoff, mode, maxjumps, skipped, cd
         skipped["near-threshold"] += 1; return None
     model = py_model(ex, chem, c2, nmax, obst, onmax)
     nfree = len(py_model(ex, chem, c2, nmax, [None] * len(obst), onmax)) if any(m is not None for m in obst) else len(model)
+    # jumps removed only by species whose obstruction distance is exactly 0 (an atom exactly ON the straight path)
+    if any(m is not None and m == 0 for m in obst) and nfree != len(model):
+        nthrough = len(py_model(ex, chem, c2, nmax, [None if (m is None or m == 0) else m for m in obst], onmax)) - len(model)
+    else:
+        nthrough = 0
     # jumps whose ONLY obstructing atoms are farther than the cutoff from the start site (beside the far end of the jump)
     nfar = len(py_model(ex, chem, c2, nmax, obst, onmax, near_only=c2)) - len(model) if nfree != len(model) else 0
     if len(model) > maxjumps:
@@ -271,7 +280,7 @@ def one_case(ck, rng, label, crys, chem, ex, cutoff, mode, maxjumps, skipped, cd
     ops = coq_ops(ex, chem)
     res = dict(label=label, cutoff=cutoff, arg=arg, chem=chem, model=model, impl=impl, latt=latt, nmax=nmax, code_nmax=code_nmax,
                timpl=timpl, crys=repr(crys), njumps=len(model), nclasses=len(jn), nG=len(ex.ops), obst=obst,
-               box_small=any(code_nmax[k] < nmax[k] for k in range(3)), _ex=ex, _crys=crys, c2=c2, nblocked=nfree - len(model), nfar=nfar,
+               box_small=any(code_nmax[k] < nmax[k] for k in range(3)), _ex=ex, _crys=crys, c2=c2, nblocked=nfree - len(model), nfar=nfar, nthrough=nthrough,
                nshared=shared_displacements(ex, chem, model), nwyck=len(crys.sitelist(chem)))
     if impl is None:
         res["error"] = "displacement does not correspond to a lattice vector between the named sites"; return res
@@ -349,12 +358,13 @@ def report(ck, res, code, nmodel):
     """turn one evaluated case into counters / violations"""
     rep = {k: res.get(k) for k in ("label", "crys", "chem", "cutoff", "arg", "nmax", "code_nmax", "njumps", "nclasses", "nG")}
     rep["closestdistance"] = res.get("arg")
-    kind = "%s|cd=%s|%s" % (res["label"].split("-")[0] if res["label"].startswith(("rand", "farend", "multiW")) else "named",
+    kind = "%s|cd=%s|%s" % (res["label"].split("-")[0] if res["label"].startswith(("rand", "farend", "multiW", "through")) else "named",
                             "default" if res["arg"] is None else ("list" if isinstance(res["arg"], list) else "scalar"),
-                            "boxsmall" if res.get("box_small") else "boxok") + ("|obstructed" if res.get("nblocked") else "") + ("|far-end-obstructor" if res.get("nfar") else "") + ("|shared-dx-%dW" % res.get("nwyck", 1) if res.get("nshared") else "")
+                            "boxsmall" if res.get("box_small") else "boxok") + ("|obstructed" if res.get("nblocked") else "") + ("|far-end-obstructor" if res.get("nfar") else "") + ("|pass-through-d0" if res.get("nthrough") else "") + ("|shared-dx-%dW" % res.get("nwyck", 1) if res.get("nshared") else "")
     ck.case(key=(res["label"], res["crys"], res["chem"], round(res["cutoff"], 9), res["arg"]), nontrivial=res.get("njumps", 0) >= 2, kind=kind,
             sample={"crystal": res["crys"], "chem": res["chem"], "cutoff": res["cutoff"], "closestdistance": res["arg"],
                     "jumps": res.get("njumps"), "jumps_removed_by_obstruction": res.get("nblocked"), "of_which_only_by_atoms_beyond_cutoff_from_start": res.get("nfar"),
+                    "of_which_by_an_atom_exactly_on_the_path_with_distance_0": res.get("nthrough"),
                     "jumps_sharing_dx_with_another_site_pair": res.get("nshared"), "wyckoff_sets_of_species": res.get("nwyck"), "classes": res.get("nclasses"), "|G|": res.get("nG"), "certified_box": res.get("nmax"),
                     "code_box": res.get("code_nmax"), "coq_code": code})
     if "error" in res:
@@ -377,6 +387,35 @@ def report(ck, res, code, nmodel):
         if (code != 0) != bool(bad) or nmodel != res["njumps"]:
             ck.violation("Coq decision (code %s: %s; %s model jumps) and the Python evaluator (%s; %d jumps) disagree" %
                          (code, MEANING.get(code, "ok"), nmodel, [b[0] for b in bad], res["njumps"]), rep, key="c21-model-evaluator-disagree")
+
+
+def passthrough_setup(ex, chem, rng):
+    """(cutoff, species) such that some jump of chem runs exactly THROUGH a site of another species (collinear, strictly
+    between the end points) and is shorter than the cutoff; None if the geometry has no such jump within two cells"""
+    P = ex.pos[chem]; D = ex.D; scale = ex.scale
+    rr = [range(-2, 3)] * ex.dim + [range(0, 1)] * (3 - ex.dim)
+    cands = []
+    for i, pi in enumerate(P):
+        for j, pj in enumerate(P):
+            for R in itertools.product(*rr):
+                dx = tuple(D * R[k] + pj[k] - pi[k] for k in range(3))
+                d2 = ex.qf(dx)
+                if d2 == 0: continue
+                for c, lst in enumerate(ex.pos):
+                    if c == chem: continue
+                    for pa in lst:
+                        for n in itertools.product(*rr):
+                            xa = tuple(D * n[k] + pa[k] - pi[k] for k in range(3))
+                            t = ex.bil(xa, dx)
+                            if 0 < t < d2 and ex.qf(xa) * d2 == t * t: cands.append((d2, c))
+    if not cands: return None
+    dmin2 = min(d for d, c in cands)
+    d2, c = rng.choice([x for x in cands if x[0] <= 2 * dmin2])
+    sh = [x for x in shells(ex, chem, nbox=3) if x > d2]
+    lo = math.sqrt(d2 / scale)
+    hi = math.sqrt(sh[0] / scale) if sh else lo + 1.0
+    if hi - lo < 1e-5: return None
+    return float(lo + min(rng.choice([1e-4, 1e-3, 1e-2]), 0.4 * (hi - lo))), c
 
 
 def far_end_setup(ex, chem, rng, maxshell=5):
@@ -423,7 +462,9 @@ def run(ck):
                "multi-species cells built so that a jump is obstructed ONLY by an atom beside its far end (farther than the cutoff "
                "from the start site) with the cutoff just above the jump length; plus species occupying >= 2 Wyckoff sets (named multi-set "
                "crystals with permuted atom order, omega phase, random P1 cells) with the cutoff just above a lattice-vector length so "
-               "that inequivalent jumps share one displacement vector; inputs within 1e-6 of a threshold are "
+               "that inequivalent jumps share one displacement vector; plus multi-species crystals (B2, rock salt, perovskite, fluorite, "
+               "2-D centred/edge-decorated rectangles, random) with a cutoff reaching a jump that runs exactly through a site of another "
+               "species, closest distance exactly 0 (default or a 0 list entry) or positive; inputs within 1e-6 of a threshold are "
                "skipped and counted; distinct = distinct (crystal, species, cutoff, closest distance); non-trivial = at least 2 jumps")
     ck.trusted += ["harness/c21.py, sitegen.py: exact read-back of the crystal, conversion dx -> (i,j,R) (verified rounding), Coq literal printing",
                    "crys.G taken from the implementation (validated per operation by op_okb; completeness is property C18)"]
@@ -493,6 +534,47 @@ def run(ck):
         res = one_case(ck, rng, label if label.startswith("multiW") else "multiW-" + label, crys, chem, ex, cutoff, mode, ck.n(200, 400), skipped)
         if res is not None and res.get("nshared"):
             cases.append(res); found += 1
+    # multi-species crystals in which a jump runs exactly THROUGH a site of another species, closest distance exactly 0
+    # (the default, or a 0 entry of the per-species list) or positive
+    a = np.array
+    def mk(latt, basis): return gen.crystal.Crystal(latt, basis)
+    fcc = 0.5 * a([[0, 1, 1], [1, 0, 1], [1, 1, 0.]]).T
+    through = [("b2", lambda: mk(np.eye(3), [[a([0., 0, 0])], [a([.5, .5, .5])]])),
+               ("rocksalt", lambda: mk(fcc, [[a([0., 0, 0])], [a([.5, .5, .5])]])),
+               ("perovskite", lambda: mk(np.eye(3), [[a([0., 0, 0])], [a([.5, .5, .5])], [a([.5, .5, 0]), a([.5, 0, .5]), a([0, .5, .5])]])),
+               ("fluorite", lambda: mk(fcc, [[a([0., 0, 0])], [a([.25, .25, .25]), a([.75, .75, .75])]])),
+               ("crect-centre-2d", lambda: mk(np.diag([1., 1.25]), [[a([0., 0])], [a([.5, .5])]])),
+               ("rect-edges-2d", lambda: mk(np.diag([1., 1.25]), [[a([0., 0])], [a([.5, 0]), a([0, .5])]])),
+               ("tet-b2", lambda: mk(np.diag([1., 1., 1.2]), [[a([0., 0, 0])], [a([.5, .5, .5])]]))]
+    rng.shuffle(through)
+    nthr = ck.n(8, 36)
+    found = tries = si = 0
+    while found < nthr and tries < 15 * nthr:
+        tries += 1
+        if si < len(through) and tries % 2 == 1:
+            label, make = through[si]; si += 1
+            crys = make()
+        else:
+            r = sg.random_rational_crystal(rng, rng.choice([2, 3]), maxatoms=2, nchem=rng.choice([2, 3]))
+            if r is None: continue
+            label, crys = r
+        ex = sg.Exact(crys)
+        if not ex.ok: continue
+        chem = rng.randrange(crys.Nchem)
+        ps = passthrough_setup(ex, chem, rng)
+        if ps is None: continue
+        cutoff, c = ps
+        dmin = min_other_distance(ex, chem)
+        mode = rng.choice(["default", "default", "list0", "list0", "scalar"])
+        if mode == "default": arg = None
+        elif mode == "scalar": arg = math.floor(0.4 * dmin * 64) / 64.0
+        else: arg = [0.0 if (k == c or rng.random() < 0.5) else math.floor(rng.choice([0.3, 0.6]) * dmin * 64) / 64.0 for k in range(crys.Nchem)]
+        if arg is None:
+            res = one_case(ck, rng, "through-" + label, crys, chem, ex, cutoff, "default", ck.n(130, 400), skipped)
+        else:
+            res = one_case(ck, rng, "through-" + label, crys, chem, ex, cutoff, "override", ck.n(130, 400), skipped, cd_override=arg)
+        if res is not None and (res.get("nthrough") or (mode == "scalar" and res.get("nblocked"))):
+            cases.append(res); found += 1
     # low-symmetry / polar cells with an obstructing atom beside the far end of a jump, cutoff just above the jump length
     nfarwant = ck.n(8, 40)
     tries = found = 0
@@ -543,6 +625,7 @@ def run(ck):
     ck.extra["traces_validated_against_impl"] = len(codes)
     ck.extra["classes_all_single_orbits"] = all(c.get("single_orbit", True) for c in cases)
     ck.extra["cases_multi_wyckoff_shared_displacement"] = sum(1 for c in cases if c.get("nshared") and c.get("nwyck", 1) >= 2)
+    ck.extra["cases_pass_through_distance_0"] = sum(1 for c in cases if c.get("nthrough"))
     ck.extra["cases_with_far_end_obstructor"] = sum(1 for c in cases if c.get("nfar"))
     ck.extra["code_box_smaller_than_certified"] = sum(1 for c in cases if c.get("box_small"))
     ck.extra["impl_seconds"] = round(sum(c.get("timpl", 0) for c in cases), 1)
